@@ -86,6 +86,24 @@ CHECKS["C18"] = {
     "parts": [A("sched", "./checks/c18", "TestC18Sched", overlay=True, gomaxprocs=1, budget={"quick": 120, "thorough": 2400})],
 }
 
+CHECKS["C11"] = {
+    "level": "exploration",
+    "engine": "enum",
+    "technique": "bounded-exhaustive input enumeration of the real codec functions against an independent RFC reference (all 2^32 headers / attribute values in the thorough tier)",
+    "rule": "Engine C: (ChannelData) Encode->Decode for all 65536 numbers x payload lengths {0..64,1596..1604,65528..65535} and all lengths 0..65535 x 8 boundary numbers x 6 content patterns "
+            "(zeros, ff, counter, magic-cookie-, ChannelData-header-, STUN-header-prefixed): header fields, zero padding, round trip, in-place re-encode; (Headers) Decode and IsChannelData on "
+            "all numbers x boundary declared lengths and all declared lengths x boundary numbers (thorough: ALL 2^32 headers) x every relation between declared and actual length against the reference "
+            "valid <=> len>=4 and 0x4000<=number<=0x7FFF and declared<=len-4, result must be exactly buf[4:4+declared]; (Attrs) each of the 11 TURN attributes: raw values of every length 0..64 x "
+            "content alphabet must error unless right-sized, right-sized values decode to what the RFC layout denotes; typed AddTo->GetFrom round trips over the value domains (all channel numbers, "
+            "protocols, families; thorough: all 2^32 lifetimes, connection ids and raw 4-byte values); XOR-PEER/RELAYED-ADDRESS: all ports x IP patterns x transaction ids and raw values of all "
+            "families x lengths 0..64 against an independent XOR decoder. A class is a reference-classified input shape x decoder outcome.",
+    "parts": [A("chandata", "./checks/c11", "TestC11ChannelData", gomaxprocs=2, budget={"quick": 60, "thorough": 300}),
+              A("headers", "./checks/c11", "TestC11Headers", gomaxprocs=2, budget={"quick": 60, "thorough": 600}),
+              A("attrs", "./checks/c11", "TestC11Attrs", gomaxprocs=2, budget={"quick": 60, "thorough": 60}),
+              A("attrs32", "./checks/c11", "TestC11Attrs32", gomaxprocs=2, budget={"quick": 60, "thorough": 900}),
+              A("xoraddr", "./checks/c11", "TestC11XorAddrs", gomaxprocs=2, budget={"quick": 60, "thorough": 1200})],
+}
+
 ENGINES = [
     {"name": "vtx", "path": "/verif/vtx", "serves_properties": ["C01", "C02", "C04", "C06", "C07", "C08", "C19"],
      "kind_free_text": "Engine A: explicit-state search over event histories of the real turn.Server/turn.Client in virtual time (testing/synctest) over an in-memory network, reference model + probe sweep after every event"},
